@@ -498,6 +498,74 @@ def check_xz_lzma_heur(ck, prog_xz, rule="C16-XZ"):
               sorted(SREF - S), sorted(S - SREF)), key="XZ:lzma-dict-size-set")
 
 
+def check_alone_extras(ck, prog, prog_xz):
+    """Three conventions around the .lzma decoder that other code relies on:
+    (1) auto_decode() recognises "the sub-decoder is the .lzma one" by `coder->next.get_check == NULL` (comment at the
+        site) and only then applies the .lzma + LZMA_CONCATENATED rules (SEQ_FINISH: anything after the stream is an
+        error): lzma_alone_decoder_init() must leave get_check unset;
+    (2) lzma_decoder_init() takes the uncompressed size of LZMA1EXT (used for .lzma) as given: the only value meaning
+        "unknown" is the all-ones one; turning other values into "unknown" makes an end marker acceptable where the
+        declared size says the stream is longer;
+    (3) xz puts the bytes it read beyond the end of the stream back (--single-stream, .lz trailing data): io_fix_src_pos()
+        seeks back whenever rewind_size > 0, whether or not the end of the file was seen."""
+    f = prog.fn("lzma_alone_decoder_init", "alone_decoder.c")
+    ck.saw_function(f)
+    st = [nd for b, i, e in f.iter_elems() for (l, r, op, nd) in ex.writes(e)
+          if ex.strip(l) is not None and ex.strip(l).get("k") == "mem" and ex.strip(l)["f"] == "get_check"]
+    ck.ob("C16-ALONE", "no-get_check", not st, common.where(f, st[0] if st else None),
+          "lzma_alone_decoder_init leaves next->get_check NULL (auto_decode recognises .lzma by that)" if not st else
+          "lzma_alone_decoder_init() sets next->get_check (`%s`): auto_decode() tells the .lzma sub-decoder from the others by "
+          "get_check == NULL, so it no longer applies the .lzma rules -- trailing data after a .lzma stream is accepted with "
+          "LZMA_CONCATENATED and the stream ends without LZMA_FINISH" % ex.show(st[0])[:60], key="ALONE:no-get_check")
+    g = prog.fn("lzma_decoder_init", "lzma_decoder.c")
+    ck.saw_function(g)
+    dom = cfg.dominators(g)
+    bad = None
+    nst = 0
+    for b, i, e in g.iter_elems():
+        for (l, r, op, nd) in ex.writes(e):
+            ls = ex.strip(l)
+            if ls is None or ls.get("k") != "var" or ls["n"] != "uncomp_size" or r is None:
+                continue
+            nst += 1
+            if ex.const_val(r) is None:
+                continue
+            for d in dom.get(b.id, ()):
+                t = g.blocks[d].term
+                if d != b.id and t and "cond" in t and any(x.get("k") == "var" and x["n"] == "uncomp_size" for x in ex.walk(t["cond"])):
+                    bad = (nd, t["cond"])
+    if nst == 0:
+        raise AnalysisBroken("lzma_decoder_init: no store to uncomp_size found")
+    ck.ob("C16-ALONE", "known-size-kept", bad is None, common.where(g, bad[0] if bad else None),
+          "lzma_decoder_init: the declared uncompressed size is never replaced by a constant" if bad is None else
+          "lzma_decoder_init(): `%s` under `%s` replaces a declared uncompressed size by a constant: a .lzma header whose size "
+          "field is not the all-ones value is then decoded as if the size were unknown, so an end marker before the declared "
+          "size ends the stream successfully" % (ex.show(bad[0])[:50], ex.show(ex.strip(bad[1]))[:50]), key="ALONE:known-size-kept")
+    h = prog_xz.fn("io_fix_src_pos", "file_io.c", target="xz")
+    ck.saw_function(h)
+    ls_ = [b.id for b, i, e in h.iter_elems() for c in ex.calls(e, into_refs=False) if c.get("fn") == "lseek"]
+    if not ls_:
+        raise AnalysisBroken("io_fix_src_pos: lseek() not found")
+    domh = cfg.dominators(h)
+    extra = None
+    for d in domh.get(ls_[0], ()):
+        blk = h.blocks[d]
+        if d == ls_[0] or not blk.term or "cond" not in blk.term or len(blk.succs) != 2:
+            continue
+        other = [y for y in blk.succs if y != ls_[0] and not (y is not None and ls_[0] in cfg.reachable(h, [y]))]
+        if not other or other[0] is None or (other[0] != h.exit and h.exit not in cfg.reachable(h, [other[0]])):
+            continue            # assertion edge
+        names = {x["n"] for x in ex.walk(blk.term["cond"]) if x.get("k") == "var"} | \
+                {x["f"] for x in ex.walk(blk.term["cond"]) if x.get("k") == "mem"}
+        if names - {"rewind_size"}:
+            extra = blk.term["cond"]
+    ck.ob("C16-XZ", "rewind-unconditional", extra is None, common.where(h, extra),
+          "io_fix_src_pos: the seek back depends only on rewind_size > 0" if extra is None else
+          "io_fix_src_pos(): the seek back is skipped unless `%s`: after --single-stream or a .lz file with trailing data the "
+          "input position is left behind the bytes that were read ahead, and the next reader of the descriptor loses them"
+          % ex.show(ex.strip(extra)), key="XZ:rewind-unconditional")
+
+
 def check_lzip_acct(ck, prog):
     """.lz member size accounting: a header byte taken with in[(*in_pos)++] is counted in coder->member_size before the
     function can return with a non-fatal code -- otherwise the Member Size check of the footer depends on where the
@@ -647,7 +715,8 @@ def run(ck):
     prog_xz = common.program(ck, ("xz",), files=("/coder.c",))
     check_xz_magic(ck, prog, prog_xz)
     check_xz_lzma_heur(ck, prog_xz)
-    ck.floor("C16-XZ", 5)
+    check_alone_extras(ck, prog, common.program(ck, ("xz",), files=("/file_io.c",)))
+    ck.floor("C16-XZ", 6)
     # "concatenation rules hold": xz accepts a .lzma / raw stream only when nothing follows it (rule shared with C17)
     from . import C17
     C17.check_fail(ck, prog_xz)
